@@ -111,3 +111,11 @@ impl Rng {
         }
     }
 }
+
+impl Rng {
+    /// Random bytes of random length below `max_len`.
+    pub fn bytes_upto(&mut self, max_len: usize) -> Vec<u8> {
+        let n = self.usize(max_len.max(1));
+        self.bytes(n)
+    }
+}
